@@ -538,6 +538,8 @@ fn dtree_to_gval(d: &DTree) -> Option<GVal> {
         DTree::Null => GVal::Null,
         DTree::Bool(b) => GVal::Bool(*b),
         DTree::Int(s) => GVal::Int(s.parse::<i64>().ok()?),
+        // a numeral that overflows to infinity is read differently by decoders (inf, error, string)
+        DTree::Float(f) if !f.is_finite() => return None,
         DTree::Float(f) => GVal::Float(*f),
         DTree::Str(s) => GVal::Str(s.clone()),
         DTree::List(l) => GVal::List(l.iter().map(dtree_to_gval).collect::<Option<Vec<_>>>()?),
